@@ -634,3 +634,63 @@ def check_whole_file_writes(P, rule, reach, scope=lambda fid: True, what="file")
 def V_(rule, where, key, text, c):
     from common import V
     return V(rule.id, where, key, text, c.file, c.line)
+
+
+# ---------------------------------------------------------------- loops that must run to exhaustion
+def loop_exits(f, around_bb, drivers=("next", "pop", "pop_front", "pop_back", "next_back")):
+    """exits of the innermost natural loop around block `around_bb` other than the exhaustion of its driver (`next()` / `pop()` answering None):
+    -> (driver Call or None, [(from block, to block, text of the condition, kind)]) with kind 'break' (control continues after the loop) or
+    'return' (the function is left: an abort of the whole activation).  Error propagation (`?`: the edge leads to from_residual) is not listed."""
+    if isinstance(around_bb, tuple):
+        h, body = around_bb             # a loop given as (header, body)
+    else:
+        loops = [(h, body) for (h, body) in f._natural_loops() if around_bb in body]
+        if not loops:
+            return None, []
+        h, body = min(loops, key=lambda hb: len(hb[1]))
+    driver = None
+    for b in sorted(body):
+        c = f.call_at(b)
+        if c is not None and c.name in drivers and (driver is None or f.dominates(c.bb, driver.bb)):
+            driver = c
+    out = []
+    for b in sorted(body):
+        t = f.blocks[b]["term"]
+        for (lab, succ) in f.succ_edges(b):
+            if succ in body or succ not in f.reach_blocks or lab in ("unwind", "cleanup") or f.blocks[succ]["term"]["k"] == "unreachable":
+                continue
+            try:
+                o, outcome = f.cond_struct(b, lab)
+            except Exception:  # noqa
+                o, outcome = ("?",), "?"
+            if o[0] == "call" and driver is not None and o[1].bb == driver.bb and outcome == "None":
+                continue
+            if o[0] == "call" and driver is not None and o[1].name == "is_empty" and outcome == "true" and o[1].args and driver.args:
+                # `while !queue.is_empty() { let x = queue.pop().unwrap(); .. }`: the same exhaustion, tested on the driver's own collection
+                from unord import Unord
+                if Unord._base_local(None, f, o[1].args[0]) == Unord._base_local(None, f, driver.args[0]):
+                    continue
+            # `?`: the edge leads (through drops) to a from_residual call
+            x, hops, is_try = succ, 0, False
+            while hops < 6:
+                cx = f.call_at(x)
+                if cx is not None and cx.name == "from_residual":
+                    is_try = True
+                    break
+                nxt = [y for (_, y) in f.succ_edges(x)]
+                if len(nxt) != 1 or f.blocks[x]["stmts"] and cx is not None:
+                    break
+                x = nxt[0]
+                hops += 1
+            if is_try or (o[0] == "call" and o[1].name == "branch"):
+                continue
+            # does control come back to code after the loop, or is the function left?
+            after = blocks_reachable_from(f, succ, include_start=True)
+            kind = "return" if all(f.blocks[y]["term"]["k"] in ("return", "goto", "drop", "resume", "unreachable") and not f.blocks[y]["stmts"] for y in after if y not in body) else "break"
+            out.append((b, succ, "%s=%s" % (f.describe_origin(o, deep=2)[:70], outcome), kind))
+    return driver, out
+
+
+def all_loop_exits(f):
+    """loop_exits for every natural loop of f: [(driver, exits)]"""
+    return [loop_exits(f, (h, body)) for (h, body) in f._natural_loops() if h in f.reach_blocks]
